@@ -60,8 +60,8 @@ Proof.
   replace ((4 <=? branch) && (branch <? 256)) with true
     by (symmetry; apply andb_true_iff; split; [apply Nat.leb_le|apply Nat.ltb_lt]; lia).
   rewrite (sinc_strictly_increasing _ Hs).
-  replace (forallb (fun i => i <=? len) idx) with true.
-  2:{ symmetry. apply forallb_forall. intros i Hi. rewrite Forall_forall in Hf. apply Nat.leb_le. specialize (Hf i Hi). lia. }
+  replace (forallb (fun i => i <? len) idx) with true.
+  2:{ symmetry. apply forallb_forall. intros i Hi. rewrite Forall_forall in Hf. apply Nat.ltb_lt. exact (Hf i Hi). }
   destruct idx as [|i0 idx'] eqn:Ei; [contradiction|]. rewrite <- Ei in *. clear Ei.
   destruct (build_leaves_closed branch (S (length idx)) ltac:(lia) idx [] Hne ltac:(lia)) as (cs & Hch & Eb).
   rewrite Eb. cbn [length app].
@@ -130,4 +130,12 @@ Proof.
       destruct (Nat.ltb_spec k (length idx)) as [Hk|Hk].
       * rewrite (select_of_indices len idx Hs Hf (S k)) by lia. now replace (S k - 1) with k by lia.
       * now rewrite (select_of_indices_none len idx Hs Hf (S k)) by lia.
+Qed.
+
+(* the constructor refuses exactly the calls the specification refuses *)
+Theorem sparse_refuses_alike branch len idx : from_indices branch len idx = None -> sv_from_indices branch len idx = None.
+Proof.
+  unfold from_indices, sv_from_indices. destruct ((4 <=? branch) && (branch <? 256)); [|reflexivity].
+  destruct (strictly_increasing idx); [|reflexivity].
+  destruct (forallb (fun i => i <? len) idx); [discriminate|reflexivity].
 Qed.
